@@ -62,8 +62,10 @@ static inline u64 IR2C_cttz64(u64 x)  { u64 n = 0; for (int i = 0; i < 64 && !((
  * pointer comparison makes CBMC reason about the numeric placement of objects, and the SAT solver did not return on 10 k-step programs. */
 #ifdef __CPROVER__
 #define IR2C_PTRCMP(a, op, b) (__CPROVER_same_object((a), (b)) ? (__CPROVER_POINTER_OFFSET(a) op __CPROVER_POINTER_OFFSET(b)) : ((u64)(a) op (u64)(b)))
+#define IR2C_PTRDIFF(a, b) (__CPROVER_same_object((a), (b)) ? (u64)(s64)((u8*)(a) - (u8*)(b)) : ((u64)(a) - (u64)(b)))
 #else
 #define IR2C_PTRCMP(a, op, b) ((a) op (b))
+#define IR2C_PTRDIFF(a, b) ((u64)(s64)((u8*)(a) - (u8*)(b)))
 #endif
 /* symbolic inputs / observation layer shared with the C harnesses */
 #include "vsym_c.h"
